@@ -172,11 +172,18 @@ class _MergingIterator:
         return entry  # type: ignore
 
     def close(self) -> None:
-        """Closes all the underlying iterators"""
+        """Closes all the underlying iterators.  Every one is attempted even
+        if an earlier one fails; the first error is raised at the end."""
+        error: Optional[OSError] = None
         for s_iter in self._iterators:
-            s_iter.close()
+            try:
+                s_iter.close()
+            except OSError as exception:
+                error = error or exception
         self._iterators = []
         self._heap = []
+        if error is not None:
+            raise error
 
 
 class MafSorterCodec(SorterCodec):
